@@ -1,6 +1,9 @@
 package props
 
 import (
+	"go/token"
+	"strings"
+
 	"golang.org/x/tools/go/ssa"
 
 	"chverif/core"
@@ -43,9 +46,78 @@ func runC07(c *Ctx) {
 		ruleGates(c, p, pairs, "C07.consume")
 		ruleColumnShapeAs(c, p, "C07.consume")
 		ruleInferTables(c, p, "C07")
+		ruleColumnCount(c, p, "C07.colcount")
 	}
 	c.R.Assumptions = append(c.R.Assumptions,
 		"io.ReadFull / binary.ReadUvarint / bufio return an error on every short read (standard library contract)",
 		"go-faster/errors.Wrap(nil) is non-nil (read in v0.7.1)",
 		"decided: every read error reaches only failure exits on all paths in all analysed build configurations; not decided: that a given prefix makes some read fail is the argument of DESIGN.md C07 (i)-(iii), composed with C01/C17 shape containment")
+}
+
+// ruleColumnCount: the per-column header loops of the block decoders run b.Columns times.
+func ruleColumnCount(c *Ctx, p *core.Program, rule string) {
+	c.R.Rule(rule, "loop-bound provenance: in Block.DecodeRawBlock, Results.DecodeResult and Results.decodeAuto every counted loop that reads from the wire is bounded by the column count announced in the block header (Block.Columns), not by the size of the target: for a zero-row block the two may differ, and a loop over the target then leaves announced column headers unread (a truncated header block is accepted, the next packet is misparsed)")
+	cfg := p.Cfg.Name
+	rd := readerClass(p)
+	fns := []*ssa.Function{
+		p.Method(core.PkgProto, "Block", "DecodeRawBlock"),
+		p.Method(core.PkgProto, "Results", "DecodeResult"),
+		p.Method(core.PkgProto, "Results", "decodeAuto"),
+	}
+	n := 0
+	for _, fn := range fns {
+		if fn == nil || fn.Blocks == nil {
+			continue
+		}
+		k := 0
+		for _, b := range fn.Blocks {
+			ifi, ok := b.Instrs[len(b.Instrs)-1].(*ssa.If)
+			if !ok || !core.InLoop(ifi) {
+				continue
+			}
+			bo, ok := ifi.Cond.(*ssa.BinOp)
+			if !ok || bo.Op != token.LSS && bo.Op != token.GTR && bo.Op != token.LEQ && bo.Op != token.GEQ && bo.Op != token.NEQ {
+				continue
+			}
+			var ind, bound ssa.Value
+			if ph, ok := bo.X.(*ssa.Phi); ok && ph.Block() == b {
+				ind, bound = ph, bo.Y
+			} else if ph, ok := bo.Y.(*ssa.Phi); ok && ph.Block() == b {
+				ind, bound = ph, bo.X
+			} else if bx, ok := bo.X.(*ssa.BinOp); ok && bx.Op == token.ADD { // rotated range loop: i+1 < n
+				if ph, ok := bx.X.(*ssa.Phi); ok && ph.Block() == b {
+					ind, bound = ph, bo.Y
+				}
+			}
+			if ind == nil {
+				continue
+			}
+			// the loop body reads from the wire
+			reads := false
+			for _, sc := range b.Succs {
+				w := core.ReachAvoiding(core.Point{B: sc, I: -1}, func(in ssa.Instruction) bool {
+					cl, ok := in.(ssa.CallInstruction)
+					return ok && rd(fn, cl)
+				}, func(in ssa.Instruction) bool { return in == ssa.Instruction(ifi) }, nil)
+				if len(w) > 0 && core.InLoop(w[0].At) {
+					reads = true
+				}
+			}
+			if !reads {
+				continue
+			}
+			n++
+			k++
+			key := sprintf("%s/loop#%d", core.FuncName(fn), k)
+			fromCols := core.DependsOn(bound, func(x ssa.Value) bool {
+				return strings.HasSuffix(core.FieldOrigin(x, 0), "Block.Columns")
+			}, false)
+			if fromCols {
+				c.R.Ok(rule, key, cfg, p.Pos(ifi.Cond.Pos()), "bounded by Block.Columns")
+			} else {
+				c.R.Bad(rule, key, cfg, p.Pos(ifi.Cond.Pos()), "a loop that reads per-column data from the wire is not bounded by Block.Columns: when the target and the announced column count differ (allowed for zero-row header blocks) announced columns stay unread or absent ones are read")
+			}
+		}
+	}
+	c.R.Floor(rule, cfg, n, 3)
 }
